@@ -92,7 +92,7 @@ TYPE_NAME = {t: "t%d" % k for k, t in enumerate(TYPES)}
 
 BASE_US = 1577836800 * 10 ** 6          # 2020-01-01T00:00:00Z
 CRE_US = 1420070400 * 10 ** 6           # 2015-01-01T00:00:00Z
-OFFSETS = [0, 1, 999, 1000, 1001, 1500, 120000, 500000, 999999, 10 ** 6, 10 ** 6 + 1000, 1500000, 60 * 10 ** 6,
+OFFSETS = [0, 1, 999, 1000, 1001, 1500, 120000, 250000, 500000, 999999, 10 ** 6, 10 ** 6 + 1000, 1500000, 60 * 10 ** 6,
            86400 * 10 ** 6, -1, -1000, -10 ** 6, -(366 * 86400 * 10 ** 6), 59 * 10 ** 6 + 999000]
 STYLES = ["min", "ms", "d6", "d3"]
 
@@ -226,6 +226,8 @@ def coq_filter(f):
         if op == "in":
             return "FOther (%s %s)" % ("type_in" if k == "type" else "oid_in", common.coq_list([name(v) for v in f["v"]]))
         return "FOther (%s %s %s)" % ("type_op" if k == "type" else "oid_op", COQ_OP[op], name(f["v"]))
+    if k == "mod":
+        return "FOther (mod_op %s %s %s)" % (COQ_OP[op], common.coq_Z(storeutil.parse_ts(f["v"])), common.coq_ustr(f["v"]))
     if k == "pay":
         if op == "in":
             return "FOther (pay_in %s)" % common.coq_list([common.coq_N(v) for v in f["v"]])
@@ -255,7 +257,7 @@ def coq_table(table):
 def c11_term(case):
     table = {}
     steps = []
-    for st in case["steps"]:
+    for st in vsteps(case):
         op = st["op"]
         if op in ("add", "load"):
             steps.append("SAdd %s" % coq_segs(st["x"], table))
@@ -499,6 +501,9 @@ def make_spec(rng, cls, oid, us, pay, style=None, typ=None, form_obj=False, prop
     return o
 
 
+IN_SIZES = [9, 10, 11, 63, 64, 65, 100, 101]
+
+
 def vary_op(rng, f, types, ids, maxpay):
     """the same filter with another operator (all of FILTER_OPS that make sense for the property)"""
     k = f["k"]
@@ -511,6 +516,11 @@ def vary_op(rng, f, types, ids, maxpay):
         g["op"] = op
         if op == "in":
             g["v"] = sorted(rng.sample(range(1, maxpay + 2), min(maxpay + 1, rng.randint(1, 3))))
+            if rng.random() < 0.2:
+                g["v"] = sorted(set(g["v"]) | set(range(2000, 2000 + rng.choice(IN_SIZES))))
+        return g
+    if k == "mod":
+        g["op"] = rng.choice(["=", "=", "!=", "<", ">", "<=", ">="])
         return g
     op = rng.choice(["!=", "in", "<", ">", "<=", ">="] if k in ("type", "id") else ["!=", "in"])
     if k == "id" and f["v"] == ODD_IDS[2]:
@@ -518,7 +528,13 @@ def vary_op(rng, f, types, ids, maxpay):
     g["op"] = op
     if op == "in":
         pool = types if k == "type" else ([i for i in ids if i != ODD_IDS[2]] if k == "id" else [f["v"], "other-value"])
-        g["v"] = sorted(set(rng.sample(pool, min(len(pool), rng.randint(1, 2))) + ([f["v"]] if rng.random() < 0.5 else [])))
+        g["v"] = sorted(set(rng.sample(pool, min(len(pool), rng.randint(1, 3))) + ([f["v"]] if rng.random() < 0.5 else [])))
+        if k in ("type", "id") and rng.random() < 0.3:
+            # sizes on both sides of plausible bounds: pad with names nothing is stored under
+            n = rng.choice(IN_SIZES)
+            typ = (g["v"][0].split("--")[0] if g["v"] else "identity") if k == "id" else None
+            fill = [mk_id(typ, 5000 + j) if k == "id" else "x-fill-%d" % j for j in range(max(0, n - len(g["v"])))]
+            g["v"] = sorted(g["v"] + fill)
     return g
 
 
@@ -647,8 +663,25 @@ def gen_case(rng, store, profile=None, max_adds=10):
                 qs.append([{"k": "id", "v": rng.choice(all_ids)}, {"k": "id", "v": rng.choice(all_ids)}])
             if rng.random() < 0.3:
                 qs.append([{"k": "prop", "p": "relationship_type", "v": "related-to"}])
+        if rng.random() < (0.5 if full else 0.2):
+            # `in` lists of sizes on both sides of plausible bounds, holding the ids / types actually stored
+            n = rng.choice(IN_SIZES)
+            some = [i for i in rng.sample(all_ids, rng.randint(1, len(all_ids))) if i != ODD_IDS[2]]
+            if some:
+                fill = [mk_id(some[0].split("--")[0], 5000 + j) for j in range(max(0, n - len(some)))]
+                qs.append([{"k": "id", "op": "in", "v": sorted(some + fill)}])
+            if rng.random() < 0.4:
+                ts = rng.sample(all_types, rng.randint(1, len(all_types)))
+                qs.append([{"k": "type", "op": "in", "v": sorted(ts + ["x-fill-%d" % j for j in range(max(0, n - len(ts)))])}])
+        if full or rng.random() < 0.5:
+            # `modified` against a timestamp text in every spelling (whole second, .5, .250, 3 and 6 digits)
+            for _ in range(rng.choice([1, 2])):
+                qs.append([{"k": "mod", "v": storeutil.ts_text(rng.choice(palette), rng.choice(STYLES))}])
+            if rng.random() < 0.4:
+                qs.append([{"k": "mod", "v": storeutil.ts_text(rng.choice(palette), rng.choice(STYLES))},
+                           {"k": "id", "v": rng.choice(all_ids)}])
         for q in qs:
-            out.append({"op": "query", "q": [vary_op(rng, f, all_types, all_ids, max(1, pay[0])) for f in q]})
+            out.append({"op": "query", "q": [f if "op" in f else vary_op(rng, f, all_types, all_ids, max(1, pay[0])) for f in q]})
         out.append({"op": "count"})
         return out
 
@@ -677,7 +710,14 @@ def gen_case(rng, store, profile=None, max_adds=10):
         else:
             steps.append({"op": "add", "x": gen_tree(rng, store, specs, allow_bad)})
         if rng.random() < 0.4:
-            steps += reads(False)
+            rd = reads(False)
+            if rng.random() < 0.3:
+                rd = rd + rng.sample(rd, min(len(rd), 2))        # the same question asked again
+            steps += rd
+        if store == "fs" and rng.random() < 0.15:
+            steps.append({"op": "chdir"})                         # the process changes its working directory
+        if store == "fs" and rng.random() < 0.08:
+            steps.append({"op": "reopen"})                        # a fresh store object over the same directory
         if store == "mem" and rng.random() < 0.08:
             steps.append({"op": "saveload", "dir": rng.random() < 0.5})
     if store == "mem" and rng.random() < 0.3:
@@ -686,6 +726,10 @@ def gen_case(rng, store, profile=None, max_adds=10):
     case = {"kind": "c11", "store": store, "steps": steps, "profile": profile}
     if store == "fs" and rng.random() < 0.25:
         case["bundlify"] = True
+    if rng.random() < 0.15:
+        case["tz"] = rng.choice(["JST-9", "EST5EDT", "NST3:30NDT"])      # the worker process in another POSIX zone
+    if store == "fs" and rng.random() < 0.4:
+        case["relpath"] = True            # the store directory given relative to the working directory at construction
     if rng.random() < 0.12:
         case["af"] = [rng.choice([{"k": "pay", "v": rng.randint(1, max(1, pay[0]))},
                                   {"k": "type", "v": rng.choice(all_types)}])]
@@ -702,8 +746,15 @@ def witness_case(store):
                       {"op": "get", "id": i}, {"op": "all", "id": i}, {"op": "query", "q": []}, {"op": "count"}]}
 
 
+SILENT_OPS = ("chdir", "reopen")          # steps that yield no token on either side
+
+
+def vsteps(case):
+    return [st for st in case["steps"] if st["op"] not in SILENT_OPS]
+
+
 def add_flags(case):
-    return [st["op"] in ("add", "load", "saveload") for st in case["steps"]]
+    return [st["op"] in ("add", "load", "saveload") for st in vsteps(case)]
 
 
 # --------------------------------------------------------------------------
@@ -744,6 +795,11 @@ def holds(f, r):
         x = r["id"]
     elif k == "pay":
         x = r["pay"]
+    elif k == "mod":
+        if not r["has_mod"] or r["inst"] is None:
+            return False
+        x = r["inst"]
+        f = dict(f, v=storeutil.parse_ts(f["v"]))      # registered classes: the filter text is read as an instant
     elif k == "prop":
         x = r["props"].get(f["p"])
         if x is None:
@@ -842,13 +898,17 @@ def oracle_case(case, impl):
         return sure, optional
 
     def check_list(what, got, recs, q, mrecs):
+        out_ids = set(outside)
+        if any(f["k"] == "mod" for f in q + af):
+            # a timestamp filter on content kept as a dictionary compares text (property C12's finding): not judged here
+            out_ids |= {r["id"] for r in recs + mrecs if r["text"]}
         if isinstance(got, str):
-            if not outside:
+            if not out_ids:
                 viol("%s raised %s" % (what, got[1:]), False)
             return
-        recs = [r for r in recs if r["id"] not in outside]
-        mrecs = [r for r in mrecs if r["id"] not in outside]
-        got = [g for g in got if g[0] not in outside]
+        recs = [r for r in recs if r["id"] not in out_ids]
+        mrecs = [r for r in mrecs if r["id"] not in out_ids]
+        got = [g for g in got if g[0] not in out_ids]
         allr = recs + mrecs
         sure, optional = expected_pairs(recs, mrecs, q)
         seen = set()
@@ -870,7 +930,7 @@ def oracle_case(case, impl):
                 viol("%s misses (%s, %s)" % (what, key[0], key[1]), False, [key[0]])
                 return
 
-    for st, got in zip(case["steps"], impl):
+    for st, got in zip(vsteps(case), impl):
         op = st["op"]
         if op in ("add", "load"):
             items = [it for _, its in flatten(st["x"]) for it in its]
@@ -960,7 +1020,7 @@ def nontrivial(case, impl):
                     if isinstance(it, dict):
                         seen.setdefault(it["id"], set()).add(it.get("mod"))
     n_multi = sum(1 for v in seen.values() if len(v) >= 2)
-    nonempty = any(isinstance(g, list) and g for st, g in zip(case["steps"], impl) if st["op"] in ("get", "all", "query"))
+    nonempty = any(isinstance(g, list) and g for st, g in zip(vsteps(case), impl) if st["op"] in ("get", "all", "query"))
     return n_multi >= 1 and nonempty
 
 
@@ -977,7 +1037,7 @@ def detect_mode(impl_w):
 
 def check(run):
     quick = run.tier == "quick"
-    n_cases = 450 if quick else 1800
+    n_cases = 400 if quick else 1800
     max_adds = 10 if quick else 40
     run.coverage["rule"] = (
         "histories of 1..%d add/load calls (objects, dictionaries, lists, nested lists, Bundle objects, dictionary "
@@ -1077,7 +1137,7 @@ def replay(payload):
     NAIVE_KEPT[0] = bool(probe.get("naive_kept", True))
     impl = common.run_impl("c11_impl", [case], procs=1)[0]
     print("replay C11 %s store, %d steps" % (case["store"], len(case["steps"])))
-    for st, g in zip(case["steps"], impl if isinstance(impl, list) else []):
+    for st, g in zip(vsteps(case), impl if isinstance(impl, list) else []):
         print("  %s -> %s" % ({k: v for k, v in st.items() if k != "x"} if st["op"] not in ("add", "load") else
                               (st["op"], [(isinstance(it, dict) and (it["id"], it.get("mod"), it["pay"])) for _, its in flatten(st["x"]) for it in its]), g))
     vs = oracle_case(case, impl)
